@@ -159,7 +159,7 @@ def pure_ast_safe(text, mode):
 
 
 def enumerate_ops(src: str, *, nk=3, nks=2, forms=('src', 'ast', 'fst'), opts=({},), kinds=None, max_slice_len=4,
-                  tree=None):
+                  tree=None, extra=()):
     """All operation instances of the alphabet enabled on `src` (a Module program)."""
     tree = tree or ast.parse(src)
     want = lambda k: kinds is None or k in kinds  # noqa: E731
@@ -189,6 +189,12 @@ def enumerate_ops(src: str, *, nk=3, nks=2, forms=('src', 'ast', 'fst'), opts=({
         elif typ in OP_TYPES and want('replace_op'):
             for text, mode, form in _codes(K_ONE, typ, nk, ('src', 'fst')):
                 yield {'op': 'replace', 'path': p, 'code': [text, mode, form], 'opts': {}}
+    if 'par' in extra:  # explicit (un)parenthesization of expression / pattern nodes
+        for path, parent, field, idx, child in O.iter_slots(tree, ('expr', 'pattern')):
+            p = [list(x) for x in path]
+            yield {'op': 'par', 'path': p, 'force': False}
+            yield {'op': 'par', 'path': p, 'force': True}
+            yield {'op': 'unpar', 'path': p}
     # list fields (also the empty ones)
     for path, node in O.iter_nodes(tree):
         p = [list(x) for x in path]
@@ -294,6 +300,10 @@ def apply(fst, root, op):
         with fst.FST.options(norm=True):
             del getattr(n, op['field'])[op['idx']]
         return
+    if k == 'par':
+        return n.par(op['force'])
+    if k == 'unpar':
+        return n.unpar()
     if k == 'put_docstr':
         return n.put_docstr(op['text'], **o)
     if k == 'put_line_comment':
@@ -314,6 +324,8 @@ def op_id(op):
         parts.append(f'{c[0]!r}/{c[2]}')
     if 'text' in op:
         parts.append(repr(op['text']))
+    if 'force' in op:
+        parts.append(f"force={op['force']}")
     if op.get('opts'):
         parts.append(','.join(f'{k}={v!r}' for k, v in sorted(op['opts'].items())))
     return ' '.join(parts)
